@@ -155,7 +155,7 @@ pub fn run(ctx: &mut Ctx) {
         let _ = std::fs::remove_file(&path);
     });
     ctx.finish(crate::report::extra(
-        "cases = (game file, option set) runs of the shipped binary: files generated from G1/G2 trees in the JSON DSL (shuffled key order, optional/null chance infosets, integer and float literals) and in Gambit .efg (constant sums in {0,10,-3.5,1,100}, payoffs split over interior nodes, outcomes shared between terminals, unnamed and partly named infosets, names equal to number strings of the other player's infosets, rational and decimal chance probabilities, unsorted action lists, outcome names, comma/space payoff lists, comment, names with quotes/backslashes/non-ascii) x -m {full,sampled,external,default} x -d {five presets, default} x -t {1,10,200; 0 only with -m full -d vanilla -r 0.05} x -r x -p {1,2,0} x -c {none,0,0.01,0.3} x extension {.json/.efg, .txt with or without --input-format} x output {stdout, -o file that is absent / holds a longer earlier result / holds a shorter one}. Required: exit status 0; stdout is one JSON object; both strategies list every infoset of the file for that player with positive probabilities over the file's action names summing to 1; printed utilities equal the O5 evaluation of the printed strategies on the harness' semantic tree of the file for each player's own payoffs (constant-sum files: they add up to the constant); printed regrets equal the best-response gains; regret is the larger one. distinct = hash(file text, options); non-trivial = game has a decision infoset.",
+        "cases = (game file, option set) runs of the shipped binary: files generated from G1/G2 trees in the JSON DSL (shuffled key order, optional/null chance infosets, integer and float literals) and in Gambit .efg (constant sums in {0,10,-3.5,1,100}, payoffs split over interior nodes, outcomes shared between terminals, unnamed and partly named infosets, names equal to number strings of the other player's infosets, rational and decimal chance probabilities, chance actions that all carry the same label, unsorted action lists, outcome names, comma/space payoff lists, comment, names with quotes/backslashes/non-ascii) x -m {full,sampled,external,default} x -d {five presets, default} x -t {1,10,200; 0 only with -m full -d vanilla -r 0.05} x -r x -p {1,2,0} x -c {none,0,0.01,0.3} x extension {.json/.efg, .txt with or without --input-format} x output {stdout, -o file that is absent / holds a longer earlier result / holds a shorter one}. Required: exit status 0; stdout is one JSON object; both strategies list every infoset of the file for that player with positive probabilities over the file's action names summing to 1; printed utilities equal the O5 evaluation of the printed strategies on the harness' semantic tree of the file for each player's own payoffs (constant-sum files: they add up to the constant); printed regrets equal the best-response gains; regret is the larger one. distinct = hash(file text, options); non-trivial = game has a decision infoset.",
         &["the harness' semantic tree is the meaning of the file (Gambit: infosets are identified by number, payoffs accumulate along the path)", "tolerance 1e-9 x (max|payoff| + |constant|)"],
     ));
 }
